@@ -10,7 +10,7 @@ open VaxisModel.Model.DynExec (parseBody)
 open VaxisModel.Gen
 
 def genB : Bodies :=
-  ⟨parseBody WidSkel.listMin, parseBody WidSkel.listMax, parseBody WidSkel.listIndex, parseBody WidSkel.listDraw,
+  ⟨parseBody WidSkel.listMin, parseBody WidSkel.listMax, parseBody WidSkel.listNew, parseBody WidSkel.listIndex, parseBody WidSkel.listDraw,
    parseBody WidSkel.listDown, parseBody WidSkel.listUp, parseBody WidSkel.listHome, parseBody WidSkel.listEnd,
    parseBody WidSkel.listPageDown, parseBody WidSkel.listPageUp, parseBody WidSkel.listSetItems,
    parseBody WidSkel.pagerDraw, parseBody WidSkel.pagerLayout, parseBody WidSkel.pagerScrollDown,
